@@ -32,6 +32,7 @@ def demo(wt, d, meta):
 
 def main():
     pid, src = sys.argv[1], os.path.abspath(sys.argv[2])
+    prefix = sys.argv[3] if len(sys.argv) > 3 else ""          # name prefix for a later seeding round (e.g. r2)
     wt = "/tmp/confirm_%s_%d" % (pid, os.getpid())
     subprocess.run(["git", "-C", "/repo", "worktree", "add", "--detach", "-f", wt, "HEAD"], check=True, capture_output=True)
     results = []
@@ -60,7 +61,7 @@ def main():
             r["confirmed"] = bool(rc0 == 0 and ok and rc1 not in (0, 124))
             results.append(r)
             if r["confirmed"]:
-                dst = os.path.join(ROOT, "seeded", pid, n)
+                dst = os.path.join(ROOT, "seeded", pid, prefix + n)
                 os.makedirs(dst, exist_ok=True)
                 for f in os.listdir(os.path.join(src, n)):
                     if f.startswith("demo") and not f.endswith((".cpp", ".sh", ".py", ".txt", ".dimacs")): continue   # skip binaries
